@@ -355,6 +355,33 @@ impl C13 {
     }
 }
 
+impl C13 {
+    /// The manifest named by `-f` in another spelling: histories of a self-regenerating `alt.ninja`; the
+    /// manifest's own build statement must be found (and the file brought up to date) whatever the spelling.
+    fn flag(&self, case: &Case, env: &Env) -> CaseOut {
+        use crate::sim::hist::*;
+        use crate::sim::model::GenOpts;
+        let base = Profile::default();
+        let prof = Profile {
+            gen: GenOpts { regen_pct: 100, alt_manifest_pct: 100, subgen_pct: 0, max_steps: 4, ..GenOpts::default() },
+            edits: [1, 2, 1, 0, 0, 0, 1, 0, 0, 5, 1, 2, 2, 1],
+            fault_pct: 0,
+            kill_pct: 0,
+            interrupt_pct: 0,
+            restat_pct: 0,
+            unknown_target_pct: 0,
+            ..base
+        };
+        let out = run_history(case, &prof, &env.dir, "C13", &env.known);
+        let nontrivial = out.stats.classes.contains("reload");
+        let mut classes: Vec<String> = vec!["flag-spelling".into()];
+        if nontrivial {
+            classes.push("flag-spelling:regenerated".into());
+        }
+        CaseOut { viols: out.viols, nontrivial, fp: fnv_str(&out.fp_text), classes, desc: out.desc, evals: out.stats.invocations.max(1), ..Default::default() }
+    }
+}
+
 impl Check for C13 {
     fn id(&self) -> &'static str {
         "C13"
@@ -377,6 +404,7 @@ impl Check for C13 {
             Part { name: "long", kind: PartKind::Random { cases: tier.pick(600_000, 6_000_000), main: 200, ops: 0, oplen: 0, sched: 0 } },
             Part { name: "pairs", kind: PartKind::Random { cases: tier.pick(120_000, 1_200_000), main: 60, ops: 0, oplen: 0, sched: 20 } },
             Part { name: "bb-deps", kind: PartKind::Random { cases: tier.pick(64, 1000), main: 20, ops: 0, oplen: 0, sched: 0 } },
+            Part { name: "flag", kind: PartKind::Random { cases: tier.pick(12_000, 120_000), main: 100, ops: 5, oplen: 40, sched: 30 } },
         ]
     }
     fn run_unit(&mut self, _part: &str, u: u64, env: &mut Env) -> CaseOut {
@@ -386,6 +414,7 @@ impl Check for C13 {
         match part {
             "bb-deps" => crate::bb::deps::run_deps_case(case, env, "C13"),
             "long" => self.random_long(case),
+            "flag" => self.flag(case, env),
             _ => self.pairs(case, env),
         }
     }
